@@ -113,6 +113,17 @@ CLAIMED = {
         "effect (write-set) analysis, def-before-use and statement-order analysis over the ast; shared-state inventory",
         "other",
     ),
+    "C18": (
+        "Decides for all inputs: ceiling = KCALS_DAILY x min(T, pf1)/100; the greedy closure returns min(food, remaining) and "
+        "lowers remaining by it, remaining reset every month, hence per month the hand-off sums to min(available, ceiling) and "
+        "each entry <= its food; the nine foods are filled in the documented order into the right keys; re-timed meat = round-1 "
+        "meat + filled difference, the fill is a sequence of balanced transfers capped by the donor (total conserved, donors "
+        "non-negative) with the run-time assertions carrying the rest; the bump only ever adds max(0, .). NOT decided: that the "
+        "bump stays within the demand schedule.",
+        "Foods handed in are non-negative; the filled difference is non-negative (asserted at run time). " + TRUST,
+        "abstract evaluation of the helper code into rational forms with opaque min/max atoms + structural transfer rules",
+        "other",
+    ),
 }
 
 NOT_APPLICABLE = {
